@@ -7,18 +7,21 @@ mod refmodel;
 
 use engine::{Local, Tier, Val};
 
-fn run_property(id: &str, tier: Tier) -> Option<i32> {
-    Some(match id {
-        "C01" => props::c01::run(tier),
-        _ => return None,
-    })
+macro_rules! properties {
+    ($($id:literal => $m:ident),* $(,)?) => {
+        fn run_property(id: &str, tier: Tier) -> Option<i32> {
+            Some(match id { $($id => props::$m::run(tier),)* _ => return None })
+        }
+        fn replay_property(id: &str, case: &Val) -> Option<Local> {
+            Some(match id { $($id => props::$m::replay(case),)* _ => return None })
+        }
+    };
 }
 
-fn replay_property(id: &str, case: &Val) -> Option<Local> {
-    Some(match id {
-        "C01" => props::c01::replay(case),
-        _ => return None,
-    })
+properties! {
+    "C01" => c01,
+    "C04" => c04,
+    "C05" => c05,
 }
 
 fn main() {
